@@ -8,7 +8,7 @@
    Byte strings are assumed NUL-free (C strings).  Trusted only as far as the
    C-git correspondence (git check-ignore) exercises it on every run. *)
 From Coq Require Import List NArith Bool.
-From GoGit Require Import Base.Out Model.Gitignore.
+From GoGit Require Import Base.Out Model.Gitignore Spec.Glob.
 Import ListNotations.
 Local Open Scope N_scope.
 
@@ -196,3 +196,11 @@ Definition c49_git_ignore (excl : option String.string)
 
 Definition c49_git_wild (p t : String.string) : out :=
   OBool (match_basename (gparse (unhex p) []) (unhex t)).
+
+From Coq Require Import String.
+(* the declarative glob semantics on a (pattern, text) pair, when the pattern is in the fragment *)
+Definition c49_gmatch (p t : String.string) : out :=
+  match glob_of (unhex p) with
+  | Some g => OBool (gmatch g (unhex t))
+  | None => OSym "outside"%string
+  end.
